@@ -27,7 +27,7 @@ BLACKLIST = ["http://h.example/d5/*", "mms://never/*"]
 
 
 def variants(rng, start):
-    k = rng.weighted([("plain", 6), ("upper", 1), ("space", 1), ("other-scheme", 1), ("no-scheme", 0.5), ("bad-netloc", 0.5), ("blacklisted", 1), ("tab", 0.3)])
+    k = rng.weighted([("plain", 12), ("upper", 1), ("space", 1), ("other-scheme", 1), ("no-scheme", 0.5), ("bad-netloc", 0.5), ("blacklisted", 1), ("tab", 0.3)])
     if k == "upper":
         return "HTTP" + start[4:]
     if k == "space":
